@@ -158,6 +158,38 @@ const U16_EXTREMES: [u16; 8] = [0, 1, 11, 52, 256, 0x7FFF, 0x8000, 0xFFFF];
 const U32_EXTREMES: [u32; 8] = [0, 1, 31, 32, 0x7FFF_FFFF, 0x8000_0000, 0xFFFF_FFFE, 0xFFFF_FFFF];
 const NAMES: [[u8; 3]; 8] = [*b"XXX", *b"   ", [0xFF, 0xFE, 0xFD], [0, 0, 0], *b"vol", *b"REF", *b"VOL", [0xC3, 0x28, 0x41]];
 
+/// A complete type-31 message (with its 28-byte message header) whose `count` data block pointers all designate the
+/// same REF block of `gates` 8-bit gates (every other pointer the VOL block, when `with_vol`).
+pub fn duplicate_pointer_message(count: u16, gates: u16, with_vol: bool, seed: u64) -> Vec<u8> {
+    let hdr = MsgHeaderSpec { rpg: [0; 12], size: 0xFFFF, channel: 8, mtype: 31, seq: 1, date: 20_000, time: 1000, seg_count: 0, seg_num: 0 };
+    let d = DrdHeaderSpec { radar_id: *b"KTLX", time: 1000, date: 20_000, az_num: 1, az_angle_bits: 0, compression: 0, spare: 0, radial_length: 0, az_spacing: 1, status: 1, elev_num: 1, cut_sector: 0, elev_angle_bits: 0, spot: 0, az_index: 0 };
+    let mut body = d.encode(count).to_vec();
+    let table = body.len();
+    body.resize(table + 4 * count as usize, 0);
+    let vol_at = body.len();
+    if with_vol {
+        body.extend_from_slice(&VolSpec { id_type: b'R', lrtup: 52, major: 1, minor: 0, lat_bits: 0, lon_bits: 0, site_height: 0, feedhorn: 0, calib_bits: 0, htx_bits: 0, vtx_bits: 0, zdr_bits: 0, phi_bits: 0, vcp: 212, processing: 0, zdr_bias: 0, spare: [0; 6] }.encode());
+    }
+    let ref_at = body.len();
+    let mut x = seed | 1;
+    let data: Vec<u8> = (0..gates)
+        .map(|_| {
+            x ^= x << 13;
+            x ^= x >> 7;
+            x ^= x << 17;
+            (x >> 24) as u8
+        })
+        .collect();
+    body.extend_from_slice(&MomentSpec { id_type: b'D', reserved: 0, gates, range: 2125, interval: 250, tover: 50, snr: 16, ctrl: 0, word_size: 8, scale_bits: 2.0f32.to_bits(), offset_bits: 66.0f32.to_bits(), data }.encode(b"REF"));
+    for k in 0..count as usize {
+        let target = if with_vol && k % 2 == 1 { vol_at } else { ref_at };
+        put32(&mut body, table + 4 * k, target as u32);
+    }
+    let mut out = hdr.encode().to_vec();
+    out.extend_from_slice(&body);
+    out
+}
+
 pub fn apply(c: &MutCase) -> Vec<u8> {
     let (mut bytes, bounds) = encode_stream(&c.msgs);
     for m in &c.mutations {
@@ -405,6 +437,22 @@ pub fn run(ctx: &Ctx, rep: &mut Report) {
     );
     rep.require_class("mutated-streams", "block-name-mutated", 100);
     rep.require_class("mutated-streams", "pointer-mutated", 100);
+
+    // (a'') valid but wasteful layouts: a long pointer table whose entries all designate the same block(s).  Every pointer
+    // is in range and every block well-formed, so decoding succeeds - the memory clause (constant + linear in the
+    // input length) must hold although the declared structure is count x block size
+    {
+        let mut n = 0u64;
+        for (count, gates, with_vol) in [(10u16, 65_535u16, false), (256, 65_535, false), (2_048, 65_535, false), (4_096, 8_000, true), (20_000, 1_840, false), (65_535, 1_840, true), (65_535, 0, false), (1_000, 65_535, true)] {
+            let bytes = duplicate_pointer_message(count, gates, with_vol, ctx.seed);
+            n += 1;
+            if let Err(f) = check_bytes(&bytes, false) {
+                rep.record_failure("random-bytes", f, json!(RawCase { bytes }));
+            }
+        }
+        rep.enumerated("duplicate-pointers", "type-31 messages whose pointer table has 10..65535 entries all designating one well-formed moment block of 0..65535 gates (and optionally a VOL block): decoding succeeds, peak memory must stay within the bound", n, n, false);
+        rep.sample("duplicate-pointers", json!({"pointers": 2048, "gates": 65535}));
+    }
 
     // (a') every prefix of a few small valid streams
     {
